@@ -21,7 +21,7 @@ Injective(f) == \A i, j \in DOMAIN f : i # j => f[i] # f[j]
 (* (sigma = 0, residual -1 / +1, far inside the limits in absolute units) and the good     *)
 (* points at i%3 # 2 have sigma = 0 and a zero residual.                                   *)
 RejFullNs == IF Q THEN {3} ELSE {3, 4}       \* every (inmask, prev, bad set, sticky, grow)
-RejMidNs == IF Q THEN {} ELSE {5}            \* the same with grow in 1..2
+RejMidNs == IF Q THEN {} ELSE {5}            \* the same with grow in 1..2 and at most two bad points
 RejSparseNs == IF Q THEN {4} ELSE {6}        \* at most one bad point, grow >= 1
 GrowMax == 3
 RejZ(inmask, prev) == (Cardinality(inmask) + Cardinality(prev)) % 2 = 1
@@ -45,7 +45,7 @@ StepReject ==
   /\ c.kind = "seedrej"
   /\ \E B \in SUBSET (1..c.n) : \E st \in BOOLEAN : \E g \in 0..GrowMax :
         /\ c.fam = "sparse" => (Cardinality(B) <= 1 /\ g >= 1)
-        /\ c.fam = "mid" => g \in 1..2
+        /\ c.fam = "mid" => (g \in 1..2 /\ Cardinality(B) <= 2)
         /\ c' = RejCase(c.n, c.inmask, c.prev, B, st, g)
   /\ exp' = ExpectedReject(c')
 
